@@ -52,7 +52,12 @@ def scenario(kind, n_before, n_away, n_during, new_db_away):
         away = gen_ops(rng, n_away, ctr, ("t", "u")); hist += [("away", o) for o in away]
         run_ops(net, rng, away, sel)
         if new_db_away:
-            net.cmd(1, 1, "create-db w tok-w arbiter"); net.cmd(1, 1, "use-db w tok-w"); sel[1] = "w"; net.cmd(1, 1, "set a in new db"); hist.append(("away", ("w", "create-db + set a in new db")))
+            # a database is created while the node is away, in the middle of writes to the old ones (and is itself written later or never)
+            net.cmd(1, 1, "create-db w tok-w arbiter"); hist.append(("away", ("w", "create-db")))
+            more = gen_ops(rng, 1 + rng.below(3), ctr, ("t", "u")); hist += [("away", o) for o in more]
+            run_ops(net, rng, more, sel)
+            if rng.chance(1, 2):
+                net.cmd(1, 1, "use-db w tok-w"); sel[1] = "w"; net.cmd(1, 1, "set a in new db"); hist.append(("away", ("w", "set a in new db")))
         if net.quiesce(rng, 300) is None: return [Failure("no-quiescence", "while away")]
         # the node comes back
         if kind == "empty-disk": net.reset(2, "startingup", "n2", 900)
@@ -69,10 +74,28 @@ def scenario(kind, n_before, n_away, n_during, new_db_away):
         if net.quiesce(rng, 1500) is None: return [Failure("no-quiescence", f"resynchronisation still exchanging messages after 1500 deliveries; history {hist}")]
         bad = next((l for o in net.out for l in o if "PANIC" in l), None)
         if bad: return [Failure("panic-during-resync:" + ("supervisor" if "supervisor" in bad else "node"), f"{bad[:200]}; history {hist}")]
+        # the sync messages themselves: every `replicate <db> <key> …` line of a resynchronisation burst carries the primary's value of THAT key
+        # (the text after the key must be the value — that the receiver then mis-reads its first word is the recorded format finding)
+        burst_fails = []
+        for si, (sline, o) in enumerate(zip(net.script, net.out)):
+            if not (sline.startswith("@1 PUMP") and any(x.startswith("V replicate-since-to") for x in o)): continue
+            # the primary's dataset at that moment: the last full dump of node 1 in the output so far
+            last = None
+            for s2, o2 in zip(net.script[:si + 1], net.out[:si + 1]):
+                if s2.startswith("@1 ") and any(x.startswith("D role") for x in o2): last = [x for x in o2 if x.startswith("D ")]
+            if last is None: continue
+            pds, _ = netrunner.dataset(last)
+            for x in o:
+                m = re.match(r"L \S+ replicate (\S+) (\S+) (.*)", x)
+                if not m: continue
+                db, key, rest = core.unesc(m.group(1)).decode(), core.unesc(m.group(2)).decode(), m.group(3)
+                have = pds.get(db, {}).get(key)
+                if have is not None and have[2] == "live" and have[0] != rest:
+                    burst_fails.append(Failure("sync-line-carries-another-value", f"burst line `replicate {db} {key} {rest}` but the primary holds {have[0]!r} for {db}/{key}; history {hist}"))
         net.op(1, "DUMP"); net.op(2, "DUMP")
         dumps = netrunner.dumps_of(net)
         prim, pattrs = netrunner.dataset(dumps[1]); ds, attrs = netrunner.dataset(dumps[2])
-        fails = []
+        fails = burst_fails[:1]
         for db in sorted(prim):
             if db == "$admin": continue
             if db not in ds: fails.append(Failure("database-missing-after-resync", f"{db}; history {hist}")); continue
@@ -95,7 +118,7 @@ def scenario(kind, n_before, n_away, n_during, new_db_away):
 
 def scenarios(tier):
     S = []
-    reps = 3 if tier == "quick" else 16
+    reps = 10 if tier == "quick" else 30
     for kind in ("empty-disk", "older-snapshot", "valid-oplog"):
         for r in range(reps):
             S.append((f"{kind}-{r}", scenario(kind, 1 + r % 5, r % 4, (r * 2) % 3, r % 2 == 1)))
